@@ -145,29 +145,24 @@ Theorem C09_default_explicit : forall anc x p d sp n sp' n',
 Proof. exact default_explicit. Qed.
 Print Assumptions C09_default_explicit.
 
-(* ---- known findings: full-strength clauses refuted on the faithful model, guarded versions proved ---- *)
-(* class inherit-copies-important: a lower-precedence `inherit` attribute copies the source's
-   `important` flag and then cannot be replaced by the element's own CSS / style declaration *)
-Theorem C09_shadowed_attr_refuted :
-  exists anc x p va vc,
-    silent p x = true /\ is_presentation p = true /\ literal (x_tag x) p vc = true /\
-    attr_skipped (x_ignore_ids x) p va = false /\
-    shadow_important anc (x_tag x) p va = true /\
-    lookup p (build_attrs anc (with_css (with_attrs x [(p, va)]) [dc p vc false]))
-    <> lookup p (build_attrs anc (with_css x [dc p vc false])).
-Proof. exact shadowed_attr_refuted. Qed.
-Print Assumptions C09_shadowed_attr_refuted.
-
-Theorem C09_shadowed_attr_guarded : forall anc x p va vc ic l1 l2 c1 c2,
+(* a presentation attribute - whatever it says, `inherit` included - does not matter once a matched CSS declaration
+   of the property exists (full strength since the fix 7ac03db; the former class inherit-copies-important is gone) *)
+Theorem C09_shadowed_attr : forall anc x p va vc ic l1 l2 c1 c2,
   silent p x = true -> x_attrs x = l1 ++ l2 -> x_css x = c1 ++ c2 ->
   is_presentation p = true -> attr_skipped (x_ignore_ids x) p va = false ->
   literal (x_tag x) p vc = true ->
-  shadow_important anc (x_tag x) p va = false ->
   lookup p (build_attrs anc (with_css (with_attrs x (l1 ++ (p, va) :: l2)) (c1 ++ dc p vc ic :: c2)))
   = lookup p (build_attrs anc (with_css x (c1 ++ dc p vc ic :: c2))).
-Proof. exact shadowed_attr_guarded. Qed.
-Print Assumptions C09_shadowed_attr_guarded.
+Proof. exact shadowed_attr. Qed.
+Print Assumptions C09_shadowed_attr.
 
+(* every stored attribute carries the important flag of the declaration that produced it (also for `inherit`) *)
+Theorem C09_flag_of_declaration : forall anc tag a v imp x,
+  resolve_value anc tag a v imp = Some x -> a_imp x = imp /\ a_name x = a.
+Proof. intros. split; [eapply resolve_value_flag | eapply resolve_value_name]; eassumption. Qed.
+Print Assumptions C09_flag_of_declaration.
+
+(* ---- known finding: full-strength clause refuted on the faithful model, guarded version proved ---- *)
 (* class inherit-relative-value: `inherit` copies the specified value, which is resolved again in the
    child's context (font-size chain of units.rs::resolve_font_size) *)
 Theorem C09_inherit_font_size_refuted :
@@ -255,10 +250,10 @@ Example C09_nv_precedence :
   lookup A_Fill (build_attrs [] (xe E_Rect false [] [dc A_Fill "c1" true; dc A_Fill "c2" true] [])) = Some "c1".
 Proof. vm_compute. repeat split. Qed.
 (* inherit: inheritable from a grand-parent, non-inheritable from the parent only, default otherwise;
-   the copy keeps the source's important flag (what the code does) *)
+   the copy takes the flag of the declaration that says inherit, not the source's *)
 Example C09_nv_inherit :
   find_value (build_attrs [[]; ex_parent] (declare ex_x SpAttr 0 A_Fill "inherit")) [[]; ex_parent] A_Fill = Some "green" /\
-  get_attr A_Fill (build_attrs [[]; ex_parent] (declare ex_x SpAttr 0 A_Fill "inherit")) = Some (mk A_Fill "green" true) /\
+  get_attr A_Fill (build_attrs [[]; ex_parent] (declare ex_x SpAttr 0 A_Fill "inherit")) = Some (mk A_Fill "green" false) /\
   lookup A_Opacity (build_attrs [ex_parent] (declare ex_x (SpStyle false) 0 A_Opacity "inherit")) = Some "0.5" /\
   lookup A_Opacity (build_attrs [[]; ex_parent] (declare ex_x (SpStyle false) 0 A_Opacity "inherit")) = Some "1" /\
   is_inheritable A_Fill = true /\ is_inheritable A_Opacity = false /\ no_inherit_source [[]; ex_parent] A_Opacity = true.
